@@ -476,6 +476,8 @@ def run(tier, seed):
     import itertools
     hist = [(k, f) for n in ((2,) if tier == 'quick' else (2, 3)) for k in itertools.product(sorted(HIST), repeat=n) for f in ('text', 'json')]
     par.pmap(work_history, hist, stats=st, chunk=4)
+    from props import delivery as _DL
+    par.pmap(_DL.work, _DL.tasks(tier), extra=(('notes',),), stats=st, chunk=12)
     # comma lists through --lookup
     for cat in ('kex', 'key', 'enc', 'mac'):
         names = H.db_names(cat)[:6]
